@@ -14,10 +14,12 @@ import (
 	"path/filepath"
 	"sort"
 	"strings"
+	"syscall"
 	"testing"
 
 	"pgregory.net/rapid"
 
+	"github.com/mutagen-io/mutagen/pkg/filesystem"
 	"github.com/mutagen-io/mutagen/pkg/filesystem/behavior"
 	"github.com/mutagen-io/mutagen/pkg/synchronization/core"
 	"github.com/mutagen-io/mutagen/pkg/synchronization/core/ignore"
@@ -87,6 +89,33 @@ func untrackedPaths(e *core.Entry) []string {
 	return out
 }
 
+const deniedName = "denied"
+
+// denyModel turns every directory that lists an entry it cannot examine into
+// a problematic entry (what the scan must report for it).
+func denyModel(e *core.Entry) *core.Entry {
+	if e == nil || len(e.Contents) == 0 {
+		return e
+	}
+	if _, ok := e.Contents[deniedName]; ok {
+		return &core.Entry{Kind: core.EntryKind_Problematic, Problem: "*"}
+	}
+	out := &core.Entry{Kind: e.Kind, Executable: e.Executable, Digest: e.Digest, Target: e.Target, Problem: e.Problem, Contents: map[string]*core.Entry{}}
+	for n, c := range e.Contents {
+		out.Contents[n] = denyModel(c)
+	}
+	return out
+}
+
+func hasDenied(e *core.Entry) bool {
+	for _, pe := range tree.Walk(e) {
+		if pe.Entry.Kind == tree.KProb {
+			return true
+		}
+	}
+	return false
+}
+
 func hasPhantom(e *core.Entry) bool {
 	for _, pe := range tree.Walk(e) {
 		if pe.Entry.Kind == core.EntryKind_PhantomDirectory {
@@ -117,6 +146,15 @@ func judge(c *Case, dir string) (violation string, nontrivial bool, classes []st
 		}
 		return snap.Content, nil
 	}
+	// Entries named "denied" cannot be examined (fstatat fails with EACCES, as
+	// for an unprivileged user in a directory without search permission).
+	filesystem.VerifSetInjector(func(op, path string) error {
+		if op == "fstatat" && path == deniedName {
+			return syscall.EACCES
+		}
+		return nil
+	})
+	defer filesystem.VerifSetInjector(nil)
 	sa, err := scan(aRoot)
 	if err != nil {
 		return fmt.Sprintf("scan of alpha fails: %v", err), false, nil
@@ -131,7 +169,7 @@ func judge(c *Case, dir string) (violation string, nontrivial bool, classes []st
 	_, alphaT, betaT, conflicts := core.Reconcile(anc, ra, rb, mode)
 
 	// What is really on disk and not tracked.
-	ea, eb := disk.Expect(obsA, o), disk.Expect(obsB, o)
+	ea, eb := denyModel(disk.Expect(obsA, o)), denyModel(disk.Expect(obsB, o))
 	check := func(side string, changes []*core.Change, untracked []string, obs *disk.Node) string {
 		for _, ch := range changes {
 			for _, u := range untracked {
@@ -141,6 +179,22 @@ func judge(c *Case, dir string) (violation string, nontrivial bool, classes []st
 			}
 		}
 		return ""
+	}
+	denied := false
+	for _, n := range []*disk.Node{obsA, obsB} {
+		var walk func(n *disk.Node)
+		walk = func(n *disk.Node) {
+			if n == nil {
+				return
+			}
+			for _, name := range n.Names() {
+				if name == deniedName {
+					denied = true
+				}
+				walk(n.Children[name])
+			}
+		}
+		walk(n)
 	}
 	ua, ub := untrackedPaths(ea), untrackedPaths(eb)
 	if v := check("alpha", alphaT, ua, obsA); v != "" {
@@ -172,6 +226,9 @@ func judge(c *Case, dir string) (violation string, nontrivial bool, classes []st
 	}
 	if len(conflicts) > 0 {
 		classes = append(classes, "conflicts")
+	}
+	if denied {
+		classes = append(classes, "directory-with-an-entry-that-cannot-be-examined")
 	}
 	nontrivial = len(ua)+len(ub) > 0 && len(alphaT)+len(betaT)+len(conflicts) > 0
 	return "", nontrivial, classes
@@ -322,6 +379,33 @@ func drawCase(rt *rapid.T) *Case {
 		c.Decisions[d] = "ignored-continue"
 		c.Decisions[d+"/"+kept] = "unignored"
 	}
+	if rapid.IntRange(0, 3).Draw(rt, "denied-shape") == 0 {
+		// A directory that both the base and one endpoint hold, with tracked
+		// content and one entry that cannot be examined; the other endpoint
+		// deletes or replaces it.
+		d := rapid.SampledFrom(names).Draw(rt, "denied.dir")
+		dirNode := &disk.Node{Kind: disk.Dir, Perm: 0o755, Children: map[string]*disk.Node{
+			"keep": g.File(rt, "denied.keep"),
+		}}
+		base.Children[d] = dirNode.Clone()
+		holder, other := c.Alpha, c.Beta
+		if rapid.Bool().Draw(rt, "denied.holder") {
+			holder, other = c.Beta, c.Alpha
+		}
+		withDenied := dirNode.Clone()
+		withDenied.Children[deniedName] = g.File(rt, "denied.file")
+		holder.Children[d] = withDenied
+		if rapid.Bool().Draw(rt, "denied.other.replaced") {
+			other.Children[d] = g.Leaf(rt, "denied.replacement")
+		} else {
+			delete(other.Children, d)
+		}
+		for p := range c.Decisions {
+			if p == d || strings.HasPrefix(p, d+"/") {
+				delete(c.Decisions, p)
+			}
+		}
+	}
 	// The recorded state: what a synchronization of the base would have
 	// recorded (its tracked part), or nothing.
 	if rapid.IntRange(0, 3).Draw(rt, "ancestor") != 0 {
@@ -334,7 +418,7 @@ func TestScanReifyReconcile(t *testing.T) {
 	if ev.ReplayPath() != "" {
 		t.Skip()
 	}
-	rec := ev.New(t, prop, "scan-reify-reconcile", "rapid: a base tree (depth<=2, names a-d, files, links, FIFOs, non-UTF-8 names) and two endpoint trees derived from it by deletions, replacements and additions are materialised; both roots are scanned by core.Scan under a scripted ignorer with per-path decisions under the full contract (ignored / ignored but traversed under a mask / unignored / nominal but traversed), phantom directories are reified and core.Reconcile plans under each of the 4 modes from the tracked part of the base (or from nothing); oracle: an independent walk of each root plus the model of the ignorer contract (kit/disk) lists the on-disk objects that are not tracked — no planned change on an endpoint may sit at or above such an object; non-trivial: untracked content present and the plan has a change or a conflict")
+	rec := ev.New(t, prop, "scan-reify-reconcile", "rapid: a base tree (depth<=2, names a-d, files, links, FIFOs, non-UTF-8 names) and two endpoint trees derived from it by deletions, replacements and additions are materialised; both roots are scanned by core.Scan under a scripted ignorer with per-path decisions under the full contract (ignored / ignored but traversed under a mask / unignored / nominal but traversed), phantom directories are reified and core.Reconcile plans under each of the 4 modes from the tracked part of the base (or from nothing); oracle: an independent walk of each root plus the model of the ignorer contract (kit/disk) lists the on-disk objects that are not tracked — no planned change on an endpoint may sit at or above such an object; a quarter of the cases hold a directory with an entry that cannot be examined (fstatat made to fail with EACCES through the filesystem hook: the directory must be reported as problematic) which the other endpoint deletes or replaces; non-trivial: untracked content present and the plan has a change or a conflict")
 	base := t.TempDir()
 	i := 0
 	ev.Check(t, rec, 400, 12000, func(rt *rapid.T) {
